@@ -26,8 +26,42 @@ type c13tree struct {
 	checkIter bool
 }
 
+// fixedBytesKind: fixed-width binary keys (8 bytes, any byte value) in a compound tree
+// whose codec is the library's own byte-string codec: prefix-free because of the fixed
+// width, so the codec contract holds.
+func fixedBytesKind() *kinds.Kind[[]byte] {
+	k := kinds.AlphaBytes()
+	k.Name = "compound/bytes8/AlphabeticalOrderKey"
+	k.Family = "compound"
+	k.New = func() art.Tree[[]byte, uint64] {
+		return art.NewCompoundTree[[]byte, uint64](art.AlphabeticalOrderKey[[]byte]{})
+	}
+	fix := func(b []byte) []byte {
+		out := make([]byte, 8)
+		copy(out, b)
+		return out
+	}
+	pool := k.Pool
+	k.Pool = func(r *rng.R, n int) [][]byte {
+		ps := pool(r, n)
+		for i := range ps {
+			ps[i] = fix(ps[i])
+			if r.Chance(1, 3) {
+				ps[i] = r.Bytes(8)
+			}
+		}
+		return ps
+	}
+	near := k.Near
+	k.Near = func(r *rng.R, b []byte) []byte { return fix(near(r, b)) }
+	k.Storable = func(m *ref.Map[[]byte], b []byte) (bool, string) { return len(b) == 8, "not-fixed-width" }
+	k.HasPrefix = false
+	return k
+}
+
 func c13trees() []c13tree {
 	return []c13tree{
+		{"compound/bytes8/AlphabeticalOrderKey", false, nil, fixedBytesKind(), true},
 		{"alpha/bytes", false, func() art.Tree[[]byte, uint64] { return art.NewAlphaSortedTree[[]byte, uint64]() }, kinds.AlphaBytes(), true},
 		{"coll/bytes/und", true, nil, kinds.CollBytes(kinds.CollationConfig("und")), true},
 		{"coll/bytes/de+numeric", true, nil, kinds.CollBytes(kinds.CollationConfig("de+numeric")), true},
@@ -243,6 +277,9 @@ func c13History(res *ev.Result, unit string, tr c13tree, r *rng.R, nOps int) {
 				x.fail("Search result differs from the reference after buffer reuse", fmt.Sprintf("(%d,%v)", wv, wok), fmt.Sprintf("(%d,%v)", v, ok))
 			}
 		case 7:
+			if !tr.k.HasPrefix {
+				continue
+			}
 			p := pick()
 			if len(p) > 0 && r.Chance(1, 2) {
 				p = p[:r.Intn(len(p)+1)]
@@ -254,15 +291,54 @@ func c13History(res *ev.Result, unit string, tr c13tree, r *rng.R, nOps int) {
 		case 8:
 			a, b := pick(), pick()
 			same := r.Chance(1, 3)
-			if r.Chance(1, 6) {
+			if r.Chance(1, 6) && tr.k.Family != "compound" {
 				b = []byte{} // empty end bound
 			}
 			x.callWithCanary(r, fmt.Sprintf("Range(%q,%q) sameArray=%v", a, b, same), [][]byte{a, b}, same, func(ks [][]byte) { drainSeq(x.t.Range(ks[0], ks[1])) })
 		default:
-			// keys handed out by the tree, re-sliced shorter, used as arguments
 			if x.m.Len() == 0 {
 				continue
 			}
+			if r.Chance(1, 2) {
+				// pop idiom: take the smallest key from the tree, delete it through that very
+				// slice, insert something else; the slice the caller holds must not change
+				var k0 []byte
+				var ok0 bool
+				if x.guard("Minimum", func() { k0, _, ok0 = x.t.Minimum() }) {
+					return
+				}
+				if !ok0 {
+					continue
+				}
+				snap := append([]byte{}, k0...)
+				x.hist = append(x.hist, fmt.Sprintf("k := Minimum() (%q); Delete(k); Insert(other)", k0))
+				var got bool
+				if x.guard("Delete", func() { got = x.t.Delete(k0) }) {
+					return
+				}
+				if !got {
+					x.fail("Delete through the key slice returned by Minimum() reports absent", "true", "false")
+					return
+				}
+				x.m.Del(snap)
+				for tries := 0; tries < 3; tries++ {
+					nk := rng.Pick(r, pool)
+					if len(nk) <= len(snap) {
+						x.insert(r, nk)
+						break
+					}
+				}
+				if x.dead {
+					return
+				}
+				x.res.Inc("pop_idiom_checks")
+				if !bytes.Equal(k0, snap) {
+					x.fail("a key slice handed out by the tree changed after the key was deleted and another inserted", fmt.Sprintf("%q", snap), fmt.Sprintf("%q", k0))
+					return
+				}
+				continue
+			}
+			// keys handed out by the tree, re-sliced shorter, used as arguments
 			var got []byte
 			n := r.Intn(x.m.Len())
 			i := 0
